@@ -92,9 +92,6 @@ MUTANTS = [
     ("c02_second_sub_all_reverted", "C02", M,
      "            src_module.subs.clear()\n\n            self.subscriptions[sub.msg_type].add(src_module)\n            src_module.subs.add(sub.msg_type)",
      "            self.subscriptions[sub.msg_type].add(src_module)\n            for sub_type in src_module.subs:\n                self.subscriptions[sub_type].discard(src_module)\n            src_module.subs.clear()\n            src_module.subs.add(sub.msg_type)"),
-    ("c02_unsub_all_keeps_manager_all", "C02", M,
-     "        if unsub.msg_type == ALL_MESSAGE_TYPES:\n            self.subscriptions[unsub.msg_type].discard(src_module)\n",
-     "        if unsub.msg_type == ALL_MESSAGE_TYPES:\n"),
     ("c06_dyn_cursor_wraps_late", "C06", M,
      "            if self.next_dynamic_mod_id_offset == MAX_DYN_IDS:", "            if self.next_dynamic_mod_id_offset > MAX_DYN_IDS:"),
     ("c06_dyn_in_use_test_removed", "C06", M,
